@@ -234,7 +234,12 @@ def run(ck):
     conf2 = dict(NOuts=1, Incl="Incl1", ConfTargets="{1, 2}", SpendTargets="{}")
     spend1 = dict(NOuts=1, Incl="Incl1", ConfTargets="{}", SpendTargets="{1}")
     mixed = dict(NOuts=1, Incl="Incl1", ConfTargets="{1}", SpendTargets="{1}")
-    if thorough:
+    if os.environ.get("VERIF_C14_NOMC"):
+        # development / mutation-control runs: the model checking part does not depend on the Go code
+        ck.notes.append("VERIF_C14_NOMC set: only the small spend model was checked in this run")
+        mc("spends, two conflicting spenders, chain<=4, 2 clients, every hint", "mc_spend4",
+           MaxLen=4, MaxRegs=2, AllHints="TRUE", **spend1)
+    elif thorough:
         mc("confirmations, conflicting pair, chain<=4, 2 clients, every hint", "mc_conf4",
            MaxLen=4, MaxRegs=2, AllHints="TRUE", **conf2)
         mc("confirmations, conflicting pair, chain<=5, 2 clients, depths 1-2", "mc_conf5",
@@ -285,7 +290,7 @@ def run(ck):
                                             for r in split_traces(recs)[0][1:7]]})
 
     # ---- (e) free-running seeded driver: safety limit 4, 6 clients, 40 calls
-    runs = 1000 if thorough else 150
+    runs = 1000 if thorough else 120
     fconsts = dict(Safety=4, MaxRegs=6, **R)
     trace2, recs2 = run_exec(ck, "TestVerifC14Free",
                              {"VERIF_RUNS": runs, "VERIF_STEPS": 40, "VERIF_NOUTS": 2, "VERIF_MAXREGS": 6, "VERIF_SAFETY": 4},
